@@ -194,12 +194,18 @@ def run(W, chk):
     consts = {c: W.F.const_literal("pool_manager::manager::commands::" + c) for c in
               ("EXPLICIT_POOL_ID_PREFIX", "AUTO_POOL_ID_PREFIX", "MAX_ASSETS_PER_POOL", "MIN_ASSETS_PER_POOL")}
     ex, au = consts["EXPLICIT_POOL_ID_PREFIX"], consts["AUTO_POOL_ID_PREFIX"]
-    good = ex is not None and au is not None and ex != au and not ex.strip('"').startswith(au.strip('"')) \
-        and not au.strip('"').startswith(ex.strip('"')) and len(ex.strip('"')) > 0 and len(au.strip('"')) > 0
-    chk.expect(good, "CONST-id-prefixes", "o./p.", "explicit %s and generated %s prefixes differ and neither prefixes the other" % (ex, au),
-               "identifier prefixes %s / %s can collide" % (ex, au), "pool_manager::manager::commands")
-    chk.expect(consts["MAX_ASSETS_PER_POOL"] == "4_usize" and consts["MIN_ASSETS_PER_POOL"] == "2_usize", "CONST-asset-count", "MIN/MAX",
-               "MIN=2 MAX=4", "asset count bounds are %s..%s" % (consts["MIN_ASSETS_PER_POOL"], consts["MAX_ASSETS_PER_POOL"]), "")
+    if ex is None or au is None:
+        chk.skip("CONST-id-prefixes", "o./p.", "prefix constants not found under these names (renamed / inlined)")
+    else:
+        good = ex != au and not ex.strip('"').startswith(au.strip('"')) \
+            and not au.strip('"').startswith(ex.strip('"')) and len(ex.strip('"')) > 0 and len(au.strip('"')) > 0
+        chk.expect(good, "CONST-id-prefixes", "o./p.", "explicit %s and generated %s prefixes differ and neither prefixes the other" % (ex, au),
+                   "identifier prefixes %s / %s can collide" % (ex, au), "pool_manager::manager::commands")
+    if consts["MAX_ASSETS_PER_POOL"] is None or consts["MIN_ASSETS_PER_POOL"] is None:
+        chk.skip("CONST-asset-count", "MIN/MAX", "bounds not declared under these names; the count guards above compare with the literals 2 and 4")
+    else:
+        chk.expect(consts["MAX_ASSETS_PER_POOL"] == "4_usize" and consts["MIN_ASSETS_PER_POOL"] == "2_usize", "CONST-asset-count", "MIN/MAX",
+                   "MIN=2 MAX=4", "asset count bounds are %s..%s" % (consts["MIN_ASSETS_PER_POOL"], consts["MAX_ASSETS_PER_POOL"]), "")
     for e in pool_writes(A):
         v = e.extra.get("value", EMPTY)
         lp = all_origins(vfield(v, "lp_denom"))
